@@ -11,6 +11,9 @@
 //   D id                         router->deleteShape(shape)
 //   C id sx sy dx dy             new ConnRef(router, ConnEnd(s), ConnEnd(d), id)
 //   E id which x y               which 0: setSourceEndpoint, 1: setDestEndpoint
+//   O name v                     setRoutingOption: name in nudgeConnected | improveMoving | improveAddDel | unifying | touchingColinear
+//   J id x y fixed               new JunctionRef(router, Point(x,y), id); setPositionFixed(fixed)      (hyperedge scenes, C03)
+//   H id <end> <end>             new ConnRef between two ends, each "J jid" (ConnEnd(junction)) or "P x y" (ConnEnd(Point))
 //   P                            processTransaction(), then dump state
 //   X                            delete router, end of this run ("X" is echoed)
 // Output per P:
@@ -21,6 +24,10 @@
 //   D cid n x y ..               displayRoute()
 //   O cid n x y ..               route()
 //   .
+// A run that created a junction dumps every connector of Router::connRefs (hyperedge improvement may add / delete
+// connectors and junctions) and adds
+//   N jid live px py rx ry       JunctionRef position() and recommendedPosition(); live 0 = queued for removal
+//   G cid <end> <end>            ConnRef::endpointConnEnds(): "J jid" | "P x y"
 // An assertion failure (USE_ASSERT_EXCEPTIONS build) or any exception prints "EXC <what>" and skips to the next R.
 #include <cstdio>
 #include <cstdlib>
@@ -78,6 +85,51 @@ static void dump(Router *router, std::map<int, ConnRef *>& cn, bool ret)
     printf(".\n");
 }
 
+static void dumpHyper(Router *router, bool ret)
+{
+    printf("P %d %d\n", ret ? 1 : 0, router->actionList.empty() ? 1 : 0);
+    for (ObstacleList::const_iterator it = router->m_obstacles.begin(); it != router->m_obstacles.end(); ++it)
+    {
+        ShapeRef *s = dynamic_cast<ShapeRef *>(*it);
+        if (s)
+        {
+            printPoly("S", s->id(), s->polygon());
+            printPoly("B", s->id(), s->routingPolygon());
+            continue;
+        }
+        JunctionRef *j = dynamic_cast<JunctionRef *>(*it);
+        if (!j) continue;
+        bool queued = false;
+        for (ActionInfoList::iterator a = router->actionList.begin(); a != router->actionList.end(); ++a)
+            if (a->type == JunctionRemove && a->objPtr == j) queued = true;
+        Point p = j->position(), rp = j->recommendedPosition();
+        printf("N %u %d %.17g %.17g %.17g %.17g\n", j->id(), queued ? 0 : 1, p.x, p.y, rp.x, rp.y);
+    }
+    for (ConnRefList::const_iterator i = router->connRefs.begin(); i != router->connRefs.end(); ++i)
+    {
+        ConnRef *c = *i;
+        std::pair<ConnEnd, ConnEnd> e = c->endpointConnEnds();
+        ConnEnd *ce[2] = { &e.first, &e.second };
+        printf("G %u", c->id());
+        for (int s = 0; s < 2; ++s)
+        {
+            if (ce[s]->junction()) printf(" J %u", ce[s]->junction()->id());
+            else { Point p = ce[s]->position(); printf(" P %.17g %.17g", p.x, p.y); }
+        }
+        printf("\n");
+        printPoly("D", c->id(), c->displayRoute());
+        printPoly("O", c->id(), c->route());
+    }
+    printf(".\n");
+}
+
+static ConnEnd readEnd(std::istream& in, std::map<int, JunctionRef *>& jn)
+{
+    std::string k; in >> k;
+    if (k == "J") { int j; in >> j; return ConnEnd(jn.at(j)); }
+    double x, y; in >> x >> y; return ConnEnd(Point(x, y));
+}
+
 int main()
 {
     std::string tag;
@@ -95,6 +147,7 @@ int main()
         router->setTransactionUse(trans != 0);
         std::map<int, ShapeRef *> sh;
         std::map<int, ConnRef *> cn;
+        std::map<int, JunctionRef *> jn;
         bool failed = false;
         printf("R\n");
         while (std::cin >> tag && tag != "X")
@@ -116,7 +169,18 @@ int main()
                 else if (tag == "E") { int id, which; double x, y; std::cin >> id >> which >> x >> y;
                     if (which == 0) cn.at(id)->setSourceEndpoint(ConnEnd(Point(x, y)));
                     else cn.at(id)->setDestEndpoint(ConnEnd(Point(x, y))); }
-                else if (tag == "P") { bool ret = router->processTransaction(); dump(router, cn, ret); }
+                else if (tag == "O") { std::string name; int v; std::cin >> name >> v;
+                    RoutingOption o = name == "nudgeConnected" ? nudgeOrthogonalSegmentsConnectedToShapes :
+                        name == "improveMoving" ? improveHyperedgeRoutesMovingJunctions :
+                        name == "improveAddDel" ? improveHyperedgeRoutesMovingAddingAndDeletingJunctions :
+                        name == "unifying" ? performUnifyingNudgingPreprocessingStep : nudgeOrthogonalTouchingColinearSegments;
+                    router->setRoutingOption(o, v != 0); }
+                else if (tag == "J") { int id, fixed; double x, y; std::cin >> id >> x >> y >> fixed;
+                    jn[id] = new JunctionRef(router, Point(x, y), id); jn[id]->setPositionFixed(fixed != 0); }
+                else if (tag == "H") { int id; std::cin >> id; ConnEnd a = readEnd(std::cin, jn); ConnEnd b = readEnd(std::cin, jn);
+                    new ConnRef(router, a, b, id); }
+                else if (tag == "P") { bool ret = router->processTransaction();
+                    if (jn.empty()) dump(router, cn, ret); else dumpHyper(router, ret); }
             }
             catch (vpsc::CriticalFailure& f) {
                 std::string w = f.what(); for (size_t i = 0; i < w.size(); ++i) if (w[i] == '\n') w[i] = ' ';
